@@ -58,6 +58,25 @@ def req_stale_scripts(scen0):
     return out
 
 
+def req_abandoned_send_scripts(scen0):
+    """a REQ send is abandoned while the transport takes the request (back-pressure after k bytes): whatever of the request has
+    reached the wire makes it THE outstanding request - a second request must not follow it and the next recv returns its reply;
+    with nothing on the wire yet (k = 0) the socket may count it or discard it, but must be consistent about it"""
+    out, scen = [], scen0
+    for k in (0, 5, 100, 2000):
+        for then in ("send-then-recv", "recv"):
+            scen += 1
+            big = [hx("A%d-" % scen + "a" * 3000)]
+            ops = [{"op": "attach", "c": 1, "ptype": "REP"}, {"op": "credit", "c": 1, "k": k},
+                   {"op": "send", "m": big}, {"op": "call_poll"}, {"op": "call_drop"}]
+            if then == "send-then-recv":
+                ops += [{"op": "send", "m": [hx("B%d" % scen)]}, {"op": "call_poll"}, {"op": "credit", "c": 1}, {"op": "call_wait"}, {"op": "call_drop"}]
+            ops += [{"op": "credit", "c": 1}, {"op": "recv_poll"}, {"op": "preply", "m": [hx(""), hx("reply%d" % scen)]}, {"op": "call_wait"}, {"op": "quiescent"}, {"op": "recv_drop"}]
+            ops += [{"op": "send", "m": [hx("C%d" % scen)]}, {"op": "preply", "m": [hx(""), hx("rc%d" % scen)]}, {"op": "recv"}, {"op": "quiescent"}, {"op": "recv_drop"}]
+            out.append({"scen": scen, "sock": "REQ", "ops": ops, "tag": "abandoned-send/%d/%s" % (k, then), "nojitter": True})
+    return out
+
+
 REQ_OPS = ["send", "recv", "recv_poll", "recv_drop", "preply", "punsol", "attach2"]
 REQ_OPS_GONE = ["send", "recv", "preply", "attach2", "pclose1", "recv_drop"]      # histories in which a peer vanishes
 REP_OPS = ["req1", "req2", "recv", "recv_poll", "recv_drop", "send", "bad1"]
